@@ -68,13 +68,15 @@ func run(c Case) (res ev.Result) {
 			}
 		}
 	}
-	var lastT int32
+	var lastT int64
 	for _, d := range want {
-		if f, _ := exactTicks(int64(d.TS-lastT), c.Res, c.BPM).Float64(); f > 0x0FFFFFFF {
-			res.Skip = true // outside the stated domain (a delta beyond the format's maximum)
+		if f, _ := exactTicks(d.TS64-lastT, c.Res, c.BPM).Float64(); f > 0x0FFFFFFF || d.TS64-lastT >= 1<<31 {
+			// outside the stated domain: a delta beyond the format's maximum, or a gap that the
+			// difference of two 32-bit millisecond stamps cannot represent
+			res.Skip = true
 			return
 		}
-		lastT = d.TS
+		lastT = d.TS64
 	}
 	res.Nontrivial = len(want) >= 3 && between
 	res.Classes = []string{"port=" + c.Port}
@@ -192,7 +194,7 @@ func run(c Case) (res ev.Result) {
 	}
 	// 2. the channel messages, unchanged, in order, with faithful timing; anything else legal
 	var abs, lastAbs int64
-	var lastTS int32
+	var lastTS int64
 	k, inter := 0, 0
 	for i, e := range tr[1:] {
 		abs += int64(e.Delta)
@@ -219,17 +221,17 @@ func run(c Case) (res ev.Result) {
 			return
 		}
 		if !(k == 0 && firstExempt) {
-			exact := exactTicks(int64(want[k].TS-lastTS), c.Res, c.BPM)
+			exact := exactTicks(want[k].TS64-lastTS, c.Res, c.BPM)
 			diff := new(big.Rat).Sub(new(big.Rat).SetInt64(abs-lastAbs), exact)
 			diff.Abs(diff)
 			tol := big.NewRat(int64(2+inter), 2) // one tick, plus half a tick per intermediate event
 			if diff.Cmp(tol) > 0 {
 				f, _ := exact.Float64()
-				res.Violation = fmt.Sprintf("channel message %d (% X): recorded %d ticks after the previous one, arrival time difference %d ms at %v BPM / %d ppq is %.3f ticks", k, []byte(m), abs-lastAbs, want[k].TS-lastTS, c.BPM, c.Res, f)
+				res.Violation = fmt.Sprintf("channel message %d (% X): recorded %d ticks after the previous one, arrival time difference %d ms at %v BPM / %d ppq is %.3f ticks", k, []byte(m), abs-lastAbs, want[k].TS64-lastTS, c.BPM, c.Res, f)
 				return
 			}
 		}
-		lastAbs, lastTS, inter = abs, want[k].TS, 0
+		lastAbs, lastTS, inter = abs, want[k].TS64, 0
 		k++
 	}
 	if k != len(want) {
@@ -338,7 +340,7 @@ func genCase(port string) func(t *rapid.T) Case {
 	}
 }
 
-const rule = "rapid: live streams of the C04 domain (1..30 messages, one stream in 25 has 300..1500; channel, system common, sysex, real-time incl. active sensing, running status, interleaved real-time) plus unpaired/undefined bytes (F4 F5 F7 F9 FD) between and inside messages, chunked with inter-arrival times 0..60000 ms; tempo 20..400 BPM (fractional), resolution 24..15360; oracle: track = tempo event (within the 24-bit field's resolution) + exactly the channel messages the reference receiver sees, unchanged and in order, each delta within one tick of the exact rational conversion of the arrival time difference; every other stored event must be a legal SMF event; after Close+WriteTo the strict SMF parser accepts the bytes and ReadFrom returns the same events; non-trivial = >= 3 channel messages with a real-time / system-common message between two of them; distinct by case hash"
+const rule = "rapid: live streams of the C04 domain (1..30 messages, one stream in 25 has 300..1500; channel, system common, sysex, real-time incl. active sensing, running status, interleaved real-time) plus unpaired/undefined bytes (F4 F5 F7 F9 FD) between and inside messages, chunked with inter-arrival times 0..60000 ms and up to 14 pauses of up to 2^28 ms (the sum may pass 2^31 ms, where the 32-bit stamps wrap around; gaps between two recorded messages stay below 2^31 ms); tempo 20..400 BPM (fractional), resolution 24..15360; oracle: track = tempo event (within the 24-bit field's resolution) + exactly the channel messages the reference receiver sees, unchanged and in order, each delta within one tick of the exact rational conversion of the arrival time difference; every other stored event must be a legal SMF event; after Close+WriteTo the strict SMF parser accepts the bytes and ReadFrom returns the same events; non-trivial = >= 3 channel messages with a real-time / system-common message between two of them; distinct by case hash"
 
 var fake = ev.NewCheck("C13", "track-record-fake-port", rule+"; port = deterministic drivers.In of the harness (exact clock)", genCase("fake"), run)
 var tdrv = ev.NewCheck("C13", "track-record-testdrv", rule+"; port = testdrv with Driver.Sleep as clock (first recorded delta exempt: that driver's first time stamp contains the wall clock)", genCase("testdrv"), run)
